@@ -488,16 +488,16 @@ async fn on_commitment_revocation(
                 }
                 Err(e) => match e {
                     AddAppointmentError::RequestError(e) => {
-                        if e.is_connection() {
-                            log::warn!(
-                                "{tower_id} cannot be reached. Adding {} to pending appointments",
-                                appointment.locator
-                            );
-                            let mut state = plugin.state().lock().unwrap();
-                            state.set_tower_status(tower_id, TowerStatus::TemporaryUnreachable);
-                            state.add_pending_appointment(tower_id, &appointment);
-                            send_to_retrier(&state, tower_id, appointment.locator);
-                        }
+                        // Either the tower cannot be reached or its reply cannot be understood. In both cases the appointment
+                        // has not been acknowledged, so keep it and try again later.
+                        log::warn!(
+                            "Request to {tower_id} failed ({e:?}). Adding {} to pending appointments",
+                            appointment.locator
+                        );
+                        let mut state = plugin.state().lock().unwrap();
+                        state.set_tower_status(tower_id, TowerStatus::TemporaryUnreachable);
+                        state.add_pending_appointment(tower_id, &appointment);
+                        send_to_retrier(&state, tower_id, appointment.locator);
                     }
                     AddAppointmentError::ApiError(e) => match e.error_code {
                         errors::INVALID_SIGNATURE_OR_SUBSCRIPTION_ERROR => {
